@@ -20,12 +20,12 @@ func init() {
 		notDecided: "evenness of random, and of round_robin when some backends are down; pools of more than four backends; hash stability across pool changes; timing of try_duration; outcome under all failure patterns.",
 	})
 	register("C14", &propSpec{
-		technique: "static analysis: SSA increment/decrement pairing incl. defer and go-closure releases, module-wide atomic-access consistency, check-then-act atomicity classification",
+		technique: "static analysis: SSA increment/decrement pairing incl. defer and go-closure releases, module-wide atomic-access consistency, check-then-act atomicity classification; decision tables of Down/Full/Available on a host built by NewHost (E10); wrapper summaries for counter updates",
 		run:       runC14,
 		decided: "R1 every +1 on a backend's in-flight counter is followed on all exits, panics included, by a deferred -1 in the same function, and every +1 on its failure counter by exactly one goroutine that sleeps the fail timeout and adds -1, both only when the timeout is positive; " +
 			"R2 the counters are accessed only through sync/atomic; " +
 			"R3 the connection cap is compared in one place and incremented in another without CAS or a common lock (known finding: cap can be exceeded); " +
-			"R4 a host is down exactly on Unhealthy != 0 or Fails >= MaxFails; R5 the counters are written only by the designated +1/-1 pairs, the in-flight pair inside a per-attempt function.",
+			"R4 the decision table of Down/Full/Available on a host built by the code's own NewHost: down exactly when unhealthy or fails >= max_fails, full exactly when a cap is set and conns >= cap, available exactly when neither; R5 the counters are written only by the designated +1/-1 pairs, the in-flight pair inside a per-attempt function.",
 		notDecided: "that the counter equals the number of forwards at all times under every interleaving; timer accuracy.",
 	})
 }
